@@ -11,8 +11,7 @@ theorem restrictLength_csOfRows (cols : List ColDef) (rows : List Row) (n : Nat)
   simp [CS.restrictLength, csOfRows, List.map_take, Function.comp]
 
 theorem postFilter_nil (cols : List ColDef) (rows : List Row) : postFilter cols [] rows = rows := by
-  have h : ∀ sp, Group.get [] "Epoch" = some sp → sp.EpochStable := by intro sp h; simp [Group.get] at h
-  rw [postFilter_eq_filter cols [] rows h]
+  rw [postFilter_eq_filter cols [] rows]
   apply List.filter_eq_self.mpr
   intro r _
   simp [keepRow, keepCols, Group.get]
@@ -60,5 +59,97 @@ theorem project_get (cs : CS) (keep : List String) (n : String) (hn : n ∈ keep
   simp only [CS.project, CS.get] at this ⊢
   rw [this]
   rfl
+
+/-! ### one-pass projection with aliases -/
+
+def CSB.get (b : CSB) (n : String) : Option (List Bytes) := (b.cols.find? (fun e => e.1 == n)).map (·.2)
+
+theorem csb_any_false (b : CSB) (name : String) (hk : b.cols.map (·.1) = b.names) (hn : name ∉ b.names) :
+    b.cols.any (fun e => e.1 == name) = false := by
+  rw [List.any_eq_false]
+  intro e he
+  have : e.1 ∈ b.names := hk ▸ List.mem_map.mpr ⟨e, he, rfl⟩
+  have hne : e.1 ≠ name := fun h => hn (h ▸ this)
+  simpa using hne
+
+theorem csb_find_none (b : CSB) (name : String) (hk : b.cols.map (·.1) = b.names) (hn : name ∉ b.names) :
+    b.cols.find? (fun e => e.1 == name) = none := by
+  rw [List.find?_eq_none]
+  intro e he
+  have : e.1 ∈ b.names := hk ▸ List.mem_map.mpr ⟨e, he, rfl⟩
+  have hne : e.1 ≠ name := fun h => hn (h ▸ this)
+  simpa using hne
+
+/-- adding a column under a name that is not yet present: appended, nothing else changes -/
+theorem addColumn_fresh (b : CSB) (name : String) (d : List Bytes)
+    (hk : b.cols.map (·.1) = b.names) (hn : name ∉ b.names) :
+    b.addColumn name d = { b with names := b.names ++ [name], cols := b.cols ++ [(name, d)] } := by
+  unfold CSB.addColumn
+  rw [csb_any_false b name hk hn]
+  simp
+
+theorem projectFold_spec (cs : CS) (items : List Item) (b : CSB)
+    (hk : b.cols.map (·.1) = b.names)
+    (hnd : (b.names ++ items.map Item.out).Nodup)
+    (hsrc : ∀ it ∈ items, (cs.get it.name).isSome) :
+    ∃ b', items.foldl (projectStep cs) (some b) = some b' ∧
+      b'.names = b.names ++ items.map Item.out ∧ b'.cols.map (·.1) = b'.names ∧
+      (∀ n, n ∈ b.names → b'.get n = b.get n) ∧
+      (∀ it ∈ items, b'.get it.out = cs.get it.name) := by
+  induction items generalizing b with
+  | nil => exact ⟨b, rfl, by simp, hk, fun _ _ => rfl, by simp⟩
+  | cons it rest ih =>
+    have hsome := hsrc it (by simp)
+    cases hd : cs.get it.name with
+    | none => simp [hd] at hsome
+    | some d =>
+      have hfresh : it.out ∉ b.names := by
+        intro hin
+        simp only [List.map_cons] at hnd
+        have := (List.nodup_append.mp hnd).2.2 it.out hin it.out (by simp)
+        exact this rfl
+      have hb1 := addColumn_fresh b it.out d hk hfresh
+      have hk1 : (b.addColumn it.out d).cols.map (·.1) = (b.addColumn it.out d).names := by
+        rw [hb1]; simp [hk]
+      have hnd1 : ((b.addColumn it.out d).names ++ rest.map Item.out).Nodup := by
+        rw [hb1]; simpa [List.append_assoc] using hnd
+      obtain ⟨b', hfold, hnames, hkeys, hold, hnew⟩ :=
+        ih (b.addColumn it.out d) hk1 hnd1 (fun x hx => hsrc x (List.mem_cons_of_mem _ hx))
+      refine ⟨b', ?_, ?_, hkeys, ?_, ?_⟩
+      · simp only [List.foldl_cons, projectStep, hd]; exact hfold
+      · rw [hnames, hb1]; simp
+      · intro n hn
+        rw [hold n (by rw [hb1]; simp [hn])]
+        rw [hb1]
+        simp only [CSB.get, List.find?_append]
+        cases hf : b.cols.find? (fun e => e.1 == n) with
+        | some e => simp
+        | none =>
+          exfalso
+          rw [List.find?_eq_none] at hf
+          have : n ∈ b.cols.map (·.1) := hk ▸ hn
+          obtain ⟨e, he, hen⟩ := List.mem_map.mp this
+          exact hf e he (by simp [hen])
+      · intro x hx
+        rcases List.mem_cons.mp hx with h | h
+        · subst h
+          rw [hold x.out (by rw [hb1]; simp), hb1]
+          simp only [CSB.get, List.find?_append, csb_find_none b x.out hk hfresh]
+          simp [hd]
+        · exact hnew x h
+
+/-- **one-pass projection law**: when the output names (alias or own name) are pairwise distinct
+    and every item names an existing column, the result lists exactly the output names in select-list
+    order and each output column carries the data of its source column — also when an alias is the
+    name of another selected column. -/
+theorem projectOnePass_spec (cs : CS) (items : List Item)
+    (hnd : (items.map Item.out).Nodup) (hsrc : ∀ it ∈ items, (cs.get it.name).isSome) :
+    ∃ out, projectOnePass cs items = some out ∧ out.names = items.map Item.out ∧
+      ∀ it ∈ items, out.get it.out = cs.get it.name := by
+  obtain ⟨b', hfold, hnames, _, _, hnew⟩ := projectFold_spec cs items ({} : CSB) rfl (by simpa using hnd) hsrc
+  refine ⟨b'.toCS, ?_, ?_, ?_⟩
+  · unfold projectOnePass; rw [hfold]; rfl
+  · simpa [CSB.toCS] using hnames
+  · intro it hit; exact hnew it hit
 
 end Mkts.Sql
